@@ -1,8 +1,135 @@
 import Driver.Util
-open Lean
+import Paroxy.Model.Taxonomy
+import Paroxy.Spec.Taxonomy
+import Paroxy.Gen.Taxonomy
+import Paroxy.Gen.TaxonomyCodes
+import Paroxy.Spec.TaxonomyDefault
+import Std.Data.HashMap
+open Lean Paroxy Paroxy.Taxo
 
 namespace Driver.C09
 
-def handlers : List (String × Handler) := []
+def strJ (s : Str) : Json := Json.str (String.ofList s)
+def strsJ (l : List Str) : Json := Json.arr (l.map strJ).toArray
+
+/-- The text of the taxonomy: `"default": true` = the translator's copy of resources/taxonomy.tsv. -/
+def textOf (j : Json) : Except String Str :=
+  match j.getObjValAs? Bool "default" with
+  | .ok true => pure Spec.Taxo.defaultText
+  | _ => do
+    let t ← getStr j "text"
+    pure t.toList
+
+/-- `"looks": [L, ...]` and `"oracle": [[L, [[T, P, X], ...]], ...]` as computed by the harness with
+`regex.fullmatch` / `Match.expand`. -/
+def oracleOf (j : Json) : Except String Oracle := do
+  let looks ← (← j.getObjVal? "looks") |> strList
+  let looks := looks.map String.toList
+  let tab ← getArr j "oracle"
+  let tab ← tab.toList.mapM fun e => do
+    let p ← e.getArr?
+    match p.toList with
+    | [l, ms] => do
+      let l ← l.getStr?
+      let ms ← ms.getArr?
+      let ms ← ms.toList.mapM fun m => do
+        let q ← strList m
+        match q with
+        | [t, p, x] => pure ((t.toList, p.toList), x.toList)
+        | _ => throw "oracle match must be [T, P, X]"
+      pure (l.toList, ms)
+    | _ => throw "oracle entry must be [L, matches]"
+  let looksSet : Std.HashMap String Unit := looks.foldl (fun m l => m.insert (String.ofList l) ()) {}
+  let tabMap : Std.HashMap String (List (Row × Str)) :=
+    tab.foldl (fun m e => if m.contains (String.ofList e.1) then m else m.insert (String.ofList e.1) e.2) {}
+  pure {
+    looks := fun l => looksSet.contains (String.ofList l)
+    full := fun r l =>
+      match tabMap[String.ofList l]? with
+      | some ms => ms.lookup r
+      | none => none }
+
+def isLiteralH : Handler := fun j => do
+  let p ← getStr j "p"
+  pure (Json.mkObj [("r", Json.bool (isLiteral p.toList))])
+
+def parseH : Handler := fun j => do
+  let text ← textOf j
+  match parseTsv text with
+  | .error _ => pure (Json.mkObj [("exc", "ValueError")])
+  | .ok rows =>
+    pure (Json.mkObj [("ok", Json.arr (rows.map fun r =>
+      Json.arr #[strJ r.1, strJ r.2, Json.bool (isLiteral r.2)]).toArray)])
+
+/-- `c09.run`: a history of `get_taxon_name_list` calls on one fresh instance: the state machine's
+answers (`model`) and the specification's (`spec`). -/
+def runH : Handler := fun j => do
+  let text ← textOf j
+  let o ← oracleOf j
+  let hist ← (← j.getObjVal? "history") |> strList
+  let hist := hist.map String.toList
+  match parseTsv text with
+  | .error _ => pure (Json.mkObj [("exc", "ValueError")])
+  | .ok rows =>
+    let m := run o (init rows) hist
+    let lit := Spec.Taxo.litRows rows
+    let rx := Spec.Taxo.rxRows rows
+    let s := hist.map (Spec.Taxo.translateSplit o lit rx)
+    pure (Json.mkObj [("model", Json.arr (m.map strsJ).toArray), ("spec", Json.arr (s.map strsJ).toArray)])
+
+def bagJ (b : Bag Int) : Json :=
+  Json.arr (b.map fun e => Json.arr #[Json.num (JsonNumber.fromInt e.1), Json.num (JsonNumber.fromInt e.2)]).toArray
+
+def taxaJ (t : List (Str × Bag Int)) : Json :=
+  Json.arr (t.map fun e => Json.arr #[strJ e.1, bagJ e.2]).toArray
+
+def labelsOf (j : Json) : Except String (List (Str × List Int)) := do
+  let a ← j.getArr?
+  a.toList.mapM fun e => do
+    let p ← e.getArr?
+    match p.toList with
+    | [l, sp] => do
+      let l ← l.getStr?
+      let sp ← intList sp
+      pure (l.toList, sp)
+    | _ => throw "label must be [name, [span ids]]"
+
+/-- `c09.to_taxa`: successive `to_taxa(labels)` calls on one fresh instance. For each: the raw
+accumulated bags (`raw`, insertion order), the specification's raw bags (`spec_raw`: for every taxon
+some label translates to and every span that occurs, `rawCount`), and the final result. -/
+def toTaxaH : Handler := fun j => do
+  let text ← textOf j
+  let o ← oracleOf j
+  let calls ← getArr j "calls"
+  let calls ← calls.toList.mapM labelsOf
+  match parseTsv text with
+  | .error _ => pure (Json.mkObj [("exc", "ValueError")])
+  | .ok rows =>
+    let lit := Spec.Taxo.litRows rows
+    let rx := Spec.Taxo.rxRows rows
+    let rec go (st : State) : List (List (Str × List Int)) → List Json
+      | [] => []
+      | labels :: rest =>
+        let p := accumulate o st [] labels
+        let fin := match Dedup.deduplicatedTaxa (sortTaxa p.2) with
+          | .ok r => Json.mkObj [("ok", taxaJ r)]
+          | .error _ => Json.mkObj [("exc", "ValueError")]
+        let trs := labels.map fun ls => (Spec.Taxo.translateSplit o lit rx ls.1, ls.2)
+        let keys := (trs.flatMap (·.1)).eraseDups
+        let spans := (labels.flatMap (·.2)).eraseDups
+        let specRaw := keys.map fun t =>
+          (t, (spans.map fun s => (s, Spec.Taxo.rawCountT trs t s)).filter fun e => e.2 != 0)
+        Json.mkObj [("raw", taxaJ p.2), ("spec_raw", taxaJ specRaw), ("result", fin)] :: go p.1 rest
+    pure (Json.mkObj [("calls", Json.arr (go (init rows) calls).toArray)])
+
+/-- `c09.table_ok`: the executable well-formedness check of `C09_table_wf`, and the number of rows. -/
+def tableOkH : Handler := fun j => do
+  let text ← textOf j
+  pure (Json.mkObj [("ok", Json.bool (Spec.Taxo.tableOk text)),
+    ("data_lines", Json.num (JsonNumber.fromNat (rawLines text).length)),
+    ("translator_ok", Json.bool Gen.taxonomyCodesOk)])
+
+def handlers : List (String × Handler) :=
+  [("c09.table_ok", tableOkH), ("c09.is_literal", isLiteralH), ("c09.parse", parseH), ("c09.run", runH), ("c09.to_taxa", toTaxaH)]
 
 end Driver.C09
